@@ -63,3 +63,29 @@ CONTRACTS[M + "add_notes"] = dict(
     variants=[dict(name="container", params={"self": "TrackT", "note": "NoteContainer", "duration": "real"})],
     **_ADD)
 CLASSES["NoteContainer"] = {"class": "mingus.containers.note_container.NoteContainer", "fields": {"notes": "[Note]"}}
+
+# appending a bar / a track: one more element at the end, the same object, everything before it as it was
+CLASSES["TrackAny"] = {"class": "mingus.containers.track.Track", "fields": {"bars": "list[any]", "instrument": "None"}}
+CLASSES["CompositionT"] = {"class": "mingus.containers.composition.Composition",
+                           "fields": {"tracks": "list[any]", "selected_tracks": "list[int]"}}
+CONTRACTS[M + "add_bar"] = dict(
+    params={"self": "TrackAny", "bar": "BarT"}, returns="TrackAny",
+    old={"old_n": "len(self.bars)", "old_bars": "self.bars"},
+    ensures=[("returns-the-track", "same_object(result, self)"),
+             ("one-more-bar", "len(self.bars) == old_n + 1"),
+             ("the-bar-itself-is-last", "same_object(self.bars[len(self.bars) - 1], bar)"),
+             ("earlier-bars-untouched", "list_prefix_same(self.bars, old_bars, old_n)")],
+    modifies=["param:self", "param:self.bars"], properties=["C14"], battery="track_add_bar",
+    notes="a track holding ANY number of bars")
+C = "mingus.containers.composition.Composition."
+CONTRACTS[C + "add_track"] = dict(
+    params={"self": "CompositionT", "track": "TrackAny"}, returns="None",
+    old={"old_n": "len(self.tracks)", "old_tracks": "self.tracks"},
+    ensures=[("one-more-track", "len(self.tracks) == old_n + 1"),
+             ("the-track-itself-is-last", "same_object(self.tracks[len(self.tracks) - 1], track)"),
+             ("earlier-tracks-untouched", "list_prefix_same(self.tracks, old_tracks, old_n)"),
+             ("only-the-new-track-is-selected", "len(self.selected_tracks) == 1 and self.selected_tracks[0] == old_n")],
+    modifies=["param:self", "param:self.tracks"], properties=["C14"], battery="comp_add_track",
+    variants=[dict(name="not-a-track", params={"self": "CompositionT", "track": "BarT"},
+                   ensures=[], raises={"UnexpectedObjectError": "True"}, old={})],
+    notes="a composition holding ANY number of tracks; an object without bars is refused with the unexpected-object error")
